@@ -378,3 +378,56 @@ def snapshot_test(uni, rng, idx, nobj=6, cfgs=None):
                 ops.append({"op": "delsearch", "q": g.chain(depth=1)})
         ops.append({"op": "collect", "h": h + 1, "lim": -1, "what": "collect"})
     return {"id": "snap%d" % idx, "cfg": make_cfg(c[0], c[1], rng.randrange(len(STORAGE))), "ops": ops, "fields": ["K", "S"] + g.flds}
+
+
+def isolation_test(uni, rng, idx, nobj=5, cfgs=None):
+    """C14: scribble over objects passed to writes and returned by reads, with every payload shape."""
+    g = RandGen(uni, rng, nslots=nobj)
+    c = rng.choice(cfgs) if cfgs else (rng.random() < 0.5, rng.random() < 0.4)
+    ops = []
+    for s in range(1, nobj + 1):
+        o = g.obj(valid_only=True)
+        o["pl"] = (idx + s) % uni["payloads"]
+        if rng.random() < 0.6:
+            o["PX"] = g.val("PX")
+            o["PY"] = g.val("PY")
+            o.pop("Pn", None)
+        ops.append({"op": "put", "slot": s, "o": o} if rng.random() < 0.7 else {"op": "many", "batch": [{"slot": s, "o": o}], "csize": rng.choice([0, 1])})
+        if rng.random() < 0.7:
+            ops.append({"op": "mutate", "what": "arg", "slot": s})
+    for k in range(rng.randrange(4, 9)):
+        x = rng.random()
+        s = g.slot()
+        if x < 0.25:
+            ops.append({"op": "mutate", "what": "ret", "slot": s})
+        elif x < 0.4:
+            ops.append({"op": "mutate", "what": "all", "slot": 0})
+        elif x < 0.65:
+            ops.append({"op": "mutate", "what": "share", "slot": s, "n": k})
+        elif x < 0.8:
+            o = g.obj(valid_only=True)
+            o["pl"] = rng.randrange(uni["payloads"])
+            ops.append({"op": "put", "slot": s, "o": o})
+            ops.append({"op": "mutate", "what": "arg", "slot": s})
+        elif x < 0.9:
+            ops.append({"op": "reopen", "close": True, "create": rng.random() < 0.5})
+        else:
+            ops.append({"op": "obs", "light": True})
+    return {"id": "iso%d" % idx, "cfg": make_cfg(c[0], c[1], rng.randrange(len(STORAGE))), "ops": ops, "fields": ["K"]}
+
+
+def args_test(uni, rng, idx, cfgs=None):
+    """C19: the search-argument battery on an empty and on a non-empty collection."""
+    g = RandGen(uni, rng, nslots=4)
+    c = cfgs[idx % len(cfgs)] if cfgs else (idx % 2 == 0, idx % 4 >= 2)
+    ops = []
+    if idx % 3 != 0:
+        for s in range(1, 1 + (idx % 3) * 2):
+            ops.append({"op": "put", "slot": s, "o": g.obj(valid_only=True)})
+    ops.append({"op": "args"})
+    if idx % 3 == 0:
+        ops.append({"op": "put", "slot": 1, "o": g.obj(valid_only=True)})
+        ops.append({"op": "args"})
+    t = {"id": "arg%d" % idx, "cfg": make_cfg(c[0], c[1], idx), "ops": ops, "fields": ["K"]}
+    t["cfg"]["plain"] = idx % 2 == 1
+    return t
